@@ -2,7 +2,7 @@
    composed document, and the implementation's outcome. *)
 From Coq Require Import NArith ZArith List Bool String.
 Import ListNotations.
-From Y Require Import Prelude Node Tables NodeOps OpsRun Types Recognize Loader Hooks.
+From Y Require Import Prelude Node Tables NodeOps OpsRun Types Recognize Loader Hooks Spec.
 Open Scope N_scope.
 
 Record loadcase := { lc_oracle : oracle; lc_specs : list cls_spec; lc_type : ty;
@@ -16,7 +16,10 @@ Definition outcome_eqb (a b : result value) : bool :=
   end.
 Definition run_load (c : loadcase) : result value :=
   load (lc_oracle c) (interp_reg (lc_oracle c) (lc_specs c)) (lc_doc c) (lc_type c).
-Definition loadcase_ok (c : loadcase) : bool := outcome_eqb (run_load c) (lc_expect c).
+(* the model agrees with the implementation's outcome, and the case satisfies the hypotheses of the theorems *)
+Definition loadcase_ok (c : loadcase) : bool :=
+  outcome_eqb (run_load c) (lc_expect c)
+  && oracle_wfb (lc_oracle c) && wf_registryb (interp_reg (lc_oracle c) (lc_specs c)).
 
 Fixpoint lmism_from (i : N) (l : list loadcase) : list N :=
   match l with
